@@ -555,6 +555,21 @@ func c08CompareAddr(c *Ctx) {
 	ntrue := 0
 	for i, r := range Returns(fn) {
 		k, ok := RetVals(r)[0].(*ssa.Const)
+		if _, viaPhi := RetVals(r)[0].(*ssa.Phi); viaPhi {
+			// a boolean expression: `return ok && a1.Port == a2.Port && (a1.IP == nil || a2.IP == nil || a1.IP.Equal(a2.IP))`,
+			// possibly with the IP part in a helper – decided leaf by leaf with the conditions of each leaf's edge
+			kind, why := c08CompareExpr(fn, r)
+			if why == "" {
+				ntrue++
+				key := fmt.Sprintf("compareAddr return-true[%d]", ntrue)
+				c.Ok("compare-addr", key+" same-kind", p.InstrPos(r), "both addresses asserted to "+kind)
+				c.Ok("compare-addr", key+" equal-ports", p.InstrPos(r), "every accepting leaf is under equal ports")
+				c.Ok("compare-addr", key+" ip-compatible", p.InstrPos(r), "every accepting leaf is `an IP is unspecified` or `IPs equal`")
+			} else {
+				c.Violate("compare-addr", fmt.Sprintf("compareAddr return[%d]", i), p.InstrPos(r), "the accepting expression does not decide `same kind, equal ports, IPs equal or one unspecified`: "+why)
+			}
+			continue
+		}
 		if !ok {
 			// the tail of an arm delegated to a helper: return sameIPAndPort(a1.IP, a1.Port, a2.IP, a2.Port)
 			if hc, isCall := RetVals(r)[0].(*ssa.Call); isCall {
@@ -829,4 +844,208 @@ func c08CompareTail(fn *ssa.Function, r *ssa.Return, hc *ssa.Call) (string, stri
 		return "", "the helper never accepts"
 	}
 	return kind, ""
+}
+
+// c08CompareExpr: the return value of r in compareAddr is a short-circuit expression (a phi). Every leaf that can be true
+// must sit under: both addresses asserted to the same kind, equal ports, and be itself `an IP is nil` (a true constant on
+// an edge where that holds), `ipA.Equal(ipB)`, or a helper of (ipA, ipB) that is true only in those two cases.
+func c08CompareExpr(fn *ssa.Function, r *ssa.Return) (string, string) {
+	sideField := func(v ssa.Value, field string) int {
+		x, ok := isFieldLoadNamed(v, field)
+		if !ok {
+			return -1
+		}
+		ex, ok := x.(*ssa.Extract)
+		if !ok || ex.Index != 0 {
+			return -1
+		}
+		ta, ok := ex.Tuple.(*ssa.TypeAssert)
+		if !ok {
+			return -1
+		}
+		switch ta.X {
+		case ssa.Value(fn.Params[0]):
+			return 0
+		case ssa.Value(fn.Params[1]):
+			return 1
+		}
+		return -1
+	}
+	isIPPair := func(a, b ssa.Value) bool {
+		sa, sb := sideField(a, "IP"), sideField(b, "IP")
+		return sa >= 0 && sb >= 0 && sa != sb
+	}
+	kindOf := func(rs []string) string {
+		has := func(s string) bool {
+			for _, x := range rs {
+				if x == s {
+					return true
+				}
+			}
+			return false
+		}
+		switch {
+		case has("p0.(*net.TCPAddr)#1") && has("p1.(*net.TCPAddr)#1"):
+			return "TCPAddr"
+		case has("p0.(*net.UDPAddr)#1") && has("p1.(*net.UDPAddr)#1"):
+			return "UDPAddr"
+		}
+		return ""
+	}
+	portsEqual := func(conds []Cond) bool {
+		for _, dc := range conds {
+			if bo, ok := dc.V.(*ssa.BinOp); ok {
+				sx, sy := sideField(bo.X, "Port"), sideField(bo.Y, "Port")
+				if sx >= 0 && sy >= 0 && sx != sy && ((bo.Op == token.EQL && dc.Pol) || (bo.Op == token.NEQ && !dc.Pol)) {
+					return true
+				}
+			}
+		}
+		return false
+	}
+	ipNil := func(conds []Cond) bool {
+		for _, dc := range conds {
+			if bo, ok := dc.V.(*ssa.BinOp); ok && IsNilConst(bo.Y) && sideField(bo.X, "IP") >= 0 {
+				if (bo.Op == token.EQL && dc.Pol) || (bo.Op == token.NEQ && !dc.Pol) {
+					return true
+				}
+			}
+		}
+		return false
+	}
+	kind := ""
+	accepting := 0
+	for _, lf := range phiLeaves(RetVals(r)[0]) {
+		if k, ok := lf.v.(*ssa.Const); ok && k.Value != nil && k.Value.String() == "false" {
+			continue
+		}
+		conds := condsOnLeaf(lf, r)
+		kd := kindOf(RenderConds(conds))
+		if kd == "" {
+			return "", "a leaf that can be true (`" + RenderN(lf.v, 3) + "`) is not under both addresses being the same kind"
+		}
+		if kind != "" && kind != kd {
+			return "", "one expression mixes kinds"
+		}
+		kind = kd
+		if !portsEqual(conds) {
+			return "", "a leaf that can be true (`" + RenderN(lf.v, 3) + "`) is not under equal ports"
+		}
+		switch x := lf.v.(type) {
+		case *ssa.Const:
+			if !ipNil(conds) {
+				return "", "`true` on an edge where neither IP is known to be unset"
+			}
+		case *ssa.Call:
+			cal := x.Call.StaticCallee()
+			switch {
+			case cal != nil && cal.Name() == "Equal" && len(x.Call.Args) == 2 && isIPPair(x.Call.Args[0], x.Call.Args[1]):
+			case cal != nil && InRepo(cal) && cal.Blocks != nil && len(x.Call.Args) == 2 && isIPPair(x.Call.Args[0], x.Call.Args[1]):
+				if why := c08IPHelper(cal); why != "" {
+					return "", why
+				}
+			default:
+				return "", "a leaf that can be true is `" + RenderN(x, 3) + "`, not an IP comparison of the two addresses"
+			}
+		default:
+			return "", "a leaf that can be true is `" + RenderN(lf.v, 3) + "`"
+		}
+		accepting++
+	}
+	if accepting == 0 {
+		return "", "the expression never accepts"
+	}
+	return kind, ""
+}
+
+// c08IPHelper: hf(ipA, ipB) is true only when one of them is nil or they are Equal.
+func c08IPHelper(hf *ssa.Function) string {
+	if len(hf.Params) != 2 {
+		return "the IP helper does not take the two IPs"
+	}
+	a, b := ssa.Value(hf.Params[0]), ssa.Value(hf.Params[1])
+	pair := func(x, y ssa.Value) bool { return (x == a && y == b) || (x == b && y == a) }
+	for _, r := range Returns(hf) {
+		for _, lf := range phiLeaves(RetVals(r)[0]) {
+			conds := condsOnLeaf(lf, r)
+			switch x := lf.v.(type) {
+			case *ssa.Const:
+				if x.Value != nil && x.Value.String() == "false" {
+					continue
+				}
+				okNil := false
+				for _, dc := range conds {
+					if bo, ok := dc.V.(*ssa.BinOp); ok && IsNilConst(bo.Y) && (bo.X == a || bo.X == b) {
+						if (bo.Op == token.EQL && dc.Pol) || (bo.Op == token.NEQ && !dc.Pol) {
+							okNil = true
+						}
+					}
+				}
+				// `if ip1 == nil || ip2 == nil { return true }`: the disjunction is a phi of the two tests
+				for _, dc := range conds {
+					if ph, ok := dc.V.(*ssa.Phi); ok && dc.Pol {
+						all := true
+						for _, e := range ph.Edges {
+							if k, isK := e.(*ssa.Const); isK && k.Value != nil && k.Value.String() == "true" {
+								continue
+							}
+							bo, isB := e.(*ssa.BinOp)
+							if !(isB && bo.Op == token.EQL && IsNilConst(bo.Y) && (bo.X == a || bo.X == b)) {
+								all = false
+							}
+						}
+						if all {
+							okNil = true
+						}
+					}
+				}
+				if !okNil && lf.pred == nil {
+					// `if ip1 == nil || ip2 == nil { return true }` compiled to two tests leading to one return: with the edges
+					// "an IP is nil" and "IPs equal" deleted the return must be unreachable
+					enabling := func(bb *ssa.BasicBlock, idx int) bool {
+						if len(bb.Instrs) == 0 {
+							return true
+						}
+						iff, ok := bb.Instrs[len(bb.Instrs)-1].(*ssa.If)
+						if !ok {
+							return true
+						}
+						atom, pol0 := condAtom(iff.Cond)
+						trueIdx := 0
+						if !pol0 {
+							trueIdx = 1
+						}
+						switch y := atom.(type) {
+						case *ssa.BinOp:
+							if (y.Op == token.EQL || y.Op == token.NEQ) && IsNilConst(y.Y) && (y.X == a || y.X == b) {
+								nilIdx := trueIdx
+								if y.Op == token.NEQ {
+									nilIdx = 1 - trueIdx
+								}
+								return idx != nilIdx
+							}
+						case *ssa.Call:
+							if cal := y.Call.StaticCallee(); cal != nil && cal.Name() == "Equal" && len(y.Call.Args) == 2 && pair(y.Call.Args[0], y.Call.Args[1]) {
+								return idx != trueIdx
+							}
+						}
+						return true
+					}
+					if !InstrReach(hf, enabling, nil)(r) {
+						okNil = true
+					}
+				}
+				if !okNil {
+					return "the IP helper answers true on a path where neither IP is known to be unset"
+				}
+			case *ssa.Call:
+				if cal := x.Call.StaticCallee(); cal == nil || cal.Name() != "Equal" || len(x.Call.Args) != 2 || !pair(x.Call.Args[0], x.Call.Args[1]) {
+					return "the IP helper's result `" + RenderN(x, 3) + "` is not Equal of its two IPs"
+				}
+			default:
+				return "the IP helper's result `" + RenderN(lf.v, 3) + "` is neither a constant nor Equal"
+			}
+		}
+	}
+	return ""
 }
